@@ -29,6 +29,7 @@ func C15(ctx *Ctx) {
 	R.Rule("db-chunk", "every data-block record appended by EmitBytes describes at most the 16 bytes of its own line (16 for full lines, len&15 for the last)")
 	R.Rule("db-address", "the data-block record starts at the emitter's address and is re-addressed only after a full line ending at byte i, to entry address + i + 1; so line k of a data block starts at entry address + 16k")
 	R.Rule("pure", "WriteTextTo / WriteHexTo modify no field of the Emitter")
+	R.Rule("directive-lines", "a method that takes a string and lists it (comment, label) appends, with the listing on, exactly one record of its own type carrying that string and the current address, and nothing with the listing off; each listing writer renders that string in the arm of that type, and the base address in the arm of the base record")
 	R.Rule("base-directive", "the method that sets the base stores the new base and address and arms the directive for every argument (also one equal to the current base); the directive helper lists one base record with that address exactly when armed and disarms it")
 	checkXbuf(ctx)
 	ems, roles := emitAll(ctx)
@@ -51,6 +52,7 @@ func C15(ctx *Ctx) {
 		return
 	}
 	checkBaseDirective(ctx, roles, lineS, fAddr, fCount)
+	directives := checkDirectiveRecords(ctx, roles, lineS, fType, fAddr)
 	byType := map[uint64]lineRec{}
 	helperBad := map[string]string{}
 	helperOK := map[string]bool{}
@@ -161,6 +163,7 @@ func C15(ctx *Ctx) {
 			R.Pass("pure", name, pos, "empty mod-set on the Emitter")
 		}
 		checkListingWriter(ctx, roles, fn, byType, lineS, fType, fAddr, fCount)
+		checkDirectiveArms(ctx, roles, fn, directives)
 	}
 	// ---- EmitBytes chunks
 	checkDbChunks(ctx, roles, lineS, fType, fAddr, fCount)
@@ -1208,6 +1211,32 @@ func checkListingLoop(ctx *Ctx, fn *ssa.Function) {
 func checkListerCalled(ctx *Ctx, roles *EmitterRoles, lister *ssa.Function) {
 	R := ctx.R
 	n := 0
+	sites := staticCallSites(ctx.Prog.AllFuncs())
+	// listerBefore: the lister is called on recv before instruction `at` of fn - in fn itself or, for an unexported
+	// helper all of whose callers are known, in every caller before it calls the helper with the same emitter
+	var listerBefore func(fn *ssa.Function, at ssa.Instruction, recv ssa.Value, depth int) bool
+	listerBefore = func(fn *ssa.Function, at ssa.Instruction, recv ssa.Value, depth int) bool {
+		for _, b2 := range fn.Blocks {
+			for _, in2 := range b2.Instrs {
+				c2, ok := in2.(*ssa.Call)
+				if !ok || c2.Call.StaticCallee() != lister || len(c2.Call.Args) == 0 || c2.Call.Args[0] != recv {
+					continue
+				}
+				if b2 == at.Block() && instrIndex(c2) < instrIndex(at) || b2 != at.Block() && b2.Dominates(at.Block()) {
+					return true
+				}
+			}
+		}
+		if depth >= 3 || sites.asValue[fn] || len(sites.sites[fn]) == 0 || (fn.Object() != nil && fn.Object().Exported()) || len(fn.Params) == 0 || recv != ssa.Value(fn.Params[0]) {
+			return false
+		}
+		for _, cs := range sites.sites[fn] {
+			if len(cs.Call.Args) == 0 || !listerBefore(cs.Parent(), cs, cs.Call.Args[0], depth+1) {
+				return false
+			}
+		}
+		return true
+	}
 	for _, fn := range ctx.Prog.AllFuncs() {
 		if fn == lister || fn.Blocks == nil || len(fn.Params) == 0 || !types.Identical(fn.Params[0].Type(), types.NewPointer(roles.Named)) {
 			continue
@@ -1239,18 +1268,7 @@ func checkListerCalled(ctx *Ctx, roles *EmitterRoles, lister *ssa.Function) {
 					continue
 				}
 				n++
-				called := false
-				for _, b2 := range fn.Blocks {
-					for _, in2 := range b2.Instrs {
-						c2, ok := in2.(*ssa.Call)
-						if !ok || c2.Call.StaticCallee() != lister || len(c2.Call.Args) == 0 || c2.Call.Args[0] != ssa.Value(recv) {
-							continue
-						}
-						if b2 == b && instrIndex(c2) < instrIndex(c) || b2 != b && b2.Dominates(b) {
-							called = true
-						}
-					}
-				}
+				called := listerBefore(fn, c, recv, 0)
 				key := "lister-called:" + fn.Name()
 				if called {
 					R.Pass("base-directive", key, ctx.Prog.Pos(c.Pos()), "a pending base directive is listed before this record")
@@ -1261,4 +1279,176 @@ func checkListerCalled(ctx *Ctx, roles *EmitterRoles, lister *ssa.Function) {
 		}
 	}
 	R.Count("record-appending-sites", n)
+}
+
+// checkDirectiveRecords: the recording side of comments and labels. Returns line type -> name of the record field
+// that carries the payload (plus the base record's type -> "address").
+func checkDirectiveRecords(ctx *Ctx, roles *EmitterRoles, lineS *types.Struct, fType, fAddr int) map[uint64]string {
+	R := ctx.R
+	out := map[uint64]string{}
+	ms := ctx.Prog.SSA.MethodSets.MethodSet(types.NewPointer(roles.Named))
+	n := 0
+	for i := 0; i < ms.Len(); i++ {
+		fn := ctx.Prog.SSA.MethodValue(ms.At(i))
+		if fn == nil || fn.Blocks == nil || !ms.At(i).Obj().Exported() || len(fn.Params) != 2 {
+			continue
+		}
+		if b, ok := fn.Params[1].Type().Underlying().(*types.Basic); !ok || b.Info()&types.IsString == 0 {
+			continue
+		}
+		// structurally: appends a record of its own to the listing
+		appends := false
+		for _, b := range fn.Blocks {
+			for _, in := range b.Instrs {
+				if c, ok := in.(*ssa.Call); ok {
+					if bi, isB := c.Call.Value.(*ssa.Builtin); isB && bi.Name() == "append" && len(c.Call.Args) == 2 {
+						if ld, ok := c.Call.Args[0].(*ssa.UnOp); ok {
+							if fa, ok := ld.X.(*ssa.FieldAddr); ok && fa.Field == roles.Lines {
+								appends = true
+							}
+						}
+					}
+				}
+			}
+		}
+		if !appends {
+			continue
+		}
+		n++
+		pos := ctx.Prog.Pos(fn.Pos())
+		key := "record:" + fn.Name()
+		msg := ""
+		for _, text := range []bool{true, false} {
+			run := runEmitter(ctx, roles, fn, EmitCell{GenText: text, M8: true, X8: true})
+			if len(run.Imprec) > 0 {
+				msg = fmt.Sprintf("not interpretable: %v", run.Imprec)
+				break
+			}
+			var recs []*absint.Struct
+			for _, ev := range run.Events {
+				if ev.Kind == "append" && len(ev.Args) == 2 {
+					if sv, ok := ev.Args[1].(*absint.Struct); ok && sv.T == lineS && ev.Fn == fn {
+						recs = append(recs, sv)
+					}
+				}
+			}
+			if !text {
+				if len(recs) != 0 {
+					msg = "a record is appended although the listing is off"
+				}
+				continue
+			}
+			if !run.Returned {
+				continue // (a refusing path, e.g. a label defined twice)
+			}
+			if len(recs) != 1 {
+				msg = fmt.Sprintf("%d records of its own appended with the listing on, want 1", len(recs))
+				continue
+			}
+			tv, _ := recs[0].F[fType].(*absint.Int)
+			tc, okT := uint64(0), false
+			if tv != nil {
+				tc, okT = tv.IsConst()
+			}
+			av, _ := recs[0].F[fAddr].(*absint.Int)
+			a0, _ := run.Entry[roles.Address].(*absint.Int)
+			pf := ""
+			for f := 0; f < lineS.NumFields(); f++ {
+				if sv, ok := recs[0].F[f].(*absint.Str); ok && sv.Key == "p0" {
+					pf = lineS.Field(f).Name()
+				}
+			}
+			switch {
+			case !okT:
+				msg = "the record's line type is not a constant"
+			case pf == "":
+				msg = "the record does not carry the string it was given"
+			case av == nil || a0 == nil || av.Lin.Key() != a0.Lin.Key():
+				msg = "the record does not carry the current address"
+			default:
+				out[tc] = pf
+			}
+		}
+		if msg != "" {
+			R.Fail("directive-lines", key, pos, msg)
+		} else {
+			R.Pass("directive-lines", key, pos, "one record of its own type with the string and the current address when the listing is on, none when it is off")
+		}
+	}
+	R.Count("string-listing-methods", n)
+	return out
+}
+
+// checkDirectiveArms: the rendering side. In the arm of each directive type the writer renders the record's payload.
+func checkDirectiveArms(ctx *Ctx, roles *EmitterRoles, fn *ssa.Function, directives map[uint64]string) {
+	R := ctx.R
+	if len(directives) == 0 {
+		return
+	}
+	ip := absint.New()
+	var renders []RenderEvent
+	ip.Hooks.OverrideCall = func(ip *absint.Interp, st *absint.State, f *ssa.Function, a []absint.Val) (absint.Val, bool) {
+		if f.Pkg != nil && strings.HasSuffix(f.Pkg.Pkg.Path(), "/xbuf") && f.Signature.Recv() != nil {
+			renders = append(renders, RenderEvent{Sink: "xbuf." + f.Name(), Vals: a[1:], Guards: ip.PathGuards(st), Pos: ip.CurPos()})
+			if f.Signature.Results().Len() == 1 {
+				return a[0], true
+			}
+			return nil, true
+		}
+		return nil, false
+	}
+	ip.Hooks.UnknownCall = func(ip *absint.Interp, st *absint.State, ev *absint.Event) (absint.Val, bool) { return nil, true }
+	ip.Hooks.ExtCall = func(ip *absint.Interp, st *absint.State, ev *absint.Event) (absint.Val, bool) {
+		if strings.HasPrefix(ev.Callee, "fmt.Fprint") || strings.HasPrefix(ev.Callee, "fmt.Append") {
+			renders = append(renders, RenderEvent{Sink: ev.Callee, Vals: ev.Args, Guards: ip.PathGuards(st), Pos: ev.Pos})
+		}
+		return nil, false
+	}
+	_, out := ip.CallFix(fn, func() ([]absint.Val, *absint.State) {
+		renders = nil
+		recv := &absint.Ptr{Nil: absint.TriF, Obj: ip.SymObj("a", roles.Named), T: roles.Named}
+		w := &absint.Iface{Dyn: types.NewPointer(types.NewNamed(types.NewTypeName(0, nil, "userWriter", nil), types.NewStruct(nil, nil), nil)), V: &absint.Top{Key: "w"}}
+		return []absint.Val{recv, w}, &absint.State{Heap: absint.NewHeap(nil)}
+	})
+	if out == nil {
+		return // reported by the record rule
+	}
+	var ts []uint64
+	for t := range directives {
+		ts = append(ts, t)
+	}
+	sort.Slice(ts, func(i, j int) bool { return ts[i] < ts[j] })
+	for _, t := range ts {
+		field := directives[t]
+		key := fmt.Sprintf("%s:line-type-%d(%s)", fn.Name(), t, field)
+		found := false
+		for _, e := range renders {
+			inArm := false
+			for k, v := range e.Guards {
+				if v && strings.Contains(k, "asmLineType") && strings.HasSuffix(k, fmt.Sprintf("==%x)", t)) {
+					inArm = true
+				}
+			}
+			if !inArm {
+				continue
+			}
+			for _, v := range e.Vals {
+				switch x := v.(type) {
+				case *absint.Str:
+					if strings.HasSuffix(x.Key, "."+field) || strings.HasSuffix(x.Key, "]."+field) {
+						found = true
+					}
+				case *absint.Int:
+					if field == "address" && strings.HasSuffix(x.Lin.Key(), "].address") {
+						found = true
+					}
+				}
+			}
+		}
+		if found {
+			R.Pass("directive-lines", key, ctx.Prog.Pos(fn.Pos()), "the arm of this line type renders the record's "+field)
+		} else {
+			R.Fail("directive-lines", key, ctx.Prog.Pos(fn.Pos()), "no arm of this line type renders the record's "+field+": the directive does not appear in the listing")
+		}
+	}
 }
